@@ -26,6 +26,10 @@ Proof. exact hkc_model_refines. Qed.
 Theorem C09_congr_closure_sound : forall R X Y, in_congr R X Y = true -> cc (InR R) X Y.
 Proof. exact in_congr_sound. Qed.
 
+(* ... while inclusion of BOTH the start and the final states is a sound shortcut for automata sharing their transitions *)
+Theorem C09_shared_table_sufficient : forall A B, edges A = edges B -> fsub (nstarts A) (nstarts B) -> fsub (nfinals A) (nfinals B) -> wlincl A B.
+Proof. exact wshared_incl_sufficient. Qed.
+
 Print Assumptions C09_exact.
 Theorem C09_agree : forall v v' A B, wincl_model v A B = wincl_model v' A B.
 Proof. exact wincl_model_agree. Qed.
@@ -84,3 +88,4 @@ Print Assumptions C09_congr_partial_correct.
 Print Assumptions C09_congr_equiv_partial_correct.
 Print Assumptions C09_congr_refines.
 Print Assumptions C09_congr_closure_sound.
+Print Assumptions C09_shared_table_sufficient.
